@@ -145,8 +145,18 @@ def gen_execution(rnd, lines, want_tail=True, n_ex=None, faults=True):
         ex = {}
         kind = rnd.choice(["good"] * 5 + ["dup", "unknown", "flags", "crsess", "eodsess", "unexpected", "badver", "badlen",
                                            "fault", "errpdu", "creset", "notify", "intr", "sendfail", "openfail", "stopstart",
-                                           "park", "expire", "ivs", "f1seq", "restart", "notifywait", "firstnotcr", "hangup", "parkcb", "lateintr", "straywait", "badverthenv0", "reloadfail", "reloadfail"]) if faults else "good"
-        if kind != "reloadfail" and rnd.random() < 0.6:
+                                           "park", "expire", "ivs", "f1seq", "restart", "notifywait", "firstnotcr", "hangup", "parkcb", "lateintr", "straywait", "badverthenv0", "reloadfail", "reloadfail", "bulk", "slowsend", "slowrecv"]) if faults else "good"
+        if kind == "bulk":                     # one response with more records than the client's PDU stores hold at first (100 per family)
+            fam = rnd.choice(["k", "k", "4", "6"])
+            for j in range(rnd.choice([99, 100, 101, 102, 205, 260])):
+                r = {"k": "k", "asn": str(70000 + j), "ski": j % 12, "spki": (j // 12) % 12 + rnd.randrange(2) * 0} if fam == "k" else \
+                    {"k": "4", "pfx": "%08x" % (0x64000000 + (j << 8)), "len_": 24, "max": 24, "asn": str(70000 + j)} if fam == "4" else \
+                    {"k": "6", "pfx": "%032x" % ((0x20010db8 << 96) + (j << 64)), "len_": 64, "max": 64, "asn": str(70000 + j)}
+                c.pool.append(r)
+                c.data[rkey(r)] = r
+            c.serial = (c.serial + 1) & U32
+            c.hist[c.serial] = dict(c.data)
+        elif kind != "reloadfail" and rnd.random() < 0.6:
             c.mutate()
         if rnd.random() < 0.3:
             ex["chunk"] = rnd.choice([1, 2, 3, 7, -1])
@@ -312,6 +322,16 @@ def gen_execution(rnd, lines, want_tail=True, n_ex=None, faults=True):
                 a["items"] = a["items"] + [{"tick": rnd.randrange(1, 50)}, {"f": {"t": "serial_notify", "v": v, "sess": c.sess, "sn": str(c.serial)}}]
         if kind == "sendfail":
             ex["sendrc"] = rnd.choice(["err", "wouldblock"])
+        if kind == "slowsend":           # a congested link: the query goes out in pieces and time passes after the first one
+            ex["sendchunk"] = rnd.choice([1, 3, 5, 6, 7])
+            ex["sendtick"] = rnd.choice([1, 30, 59, 60, 61, 100, 4000])
+        if kind == "slowrecv":           # frames trickle in: short reads with time passing between them (also while established)
+            for a in alts:
+                for it in a["items"]:
+                    if "f" in it and rnd.random() < 0.5:
+                        it["ctick"] = rnd.choice([1, 5, 20, 29, 30, 31, 61, 500, 3000])
+                a["items"] = a["items"] + [{"f": {"t": "serial_notify", "v": v, "sess": c.sess, "sn": str(c.serial)}, "ctick": rnd.choice([100, 1000, 3000, 40000])}]
+            ex["chunk"] = rnd.choice([1, 2, 3, 5])
         if kind == "openfail":
             for _ in range(rnd.randrange(1, 4)):
                 lines.append({"open": "fail"})
@@ -386,7 +406,12 @@ def hostile_frame(rnd, c):
         f = {"t": "error", "v": rnd.choice([v, 0, 1, 2]), "code": rnd.choice([0, 1, 2, 3, 4, 5, 6, 7, 8, 255, 65535]),
              "enc": rnd.choice(["", "0102000000000008", "00" * 40]), "txt": rnd.choice(["", "x", "y" * 30])}
         w = rnd.random()
-        if w < 0.3:
+        if w < 0.12:          # as long as a PDU may be, the inner lengths leaving less room than the fields behind them need
+            f["len"] = rnd.choice([3240, 3244, 3245, 3246, 3247, 3248])
+            f["enclen"] = f["len"] - rnd.choice([8, 11, 12, 13, 14, 15, 16, 17, 20])
+            f["enc"] = ""
+            f["txt"] = ""
+        elif w < 0.3:
             f["enclen"] = rnd.choice([U32, 4294967280, 2147483648, 65536, 3233, 1, 7])
         elif w < 0.5:
             f["txtlen"] = rnd.choice([U32, 2147483648, 1, 255, 3000])
